@@ -776,11 +776,19 @@ def apply_contract(I, c, args, kwargs, node):
                 raise sx.SymRaise(exc_cls, "from " + c.short)
     # havoc
     c.havoc(I, bound)
+    if getattr(c, "effect", None):
+        c.effect(I, bound)
     if c.result_fn is not None:
         result = c.apply(c.result_fn[1], dict(bound, old=old))
     else:
         result = c.result.fresh(ctx, "ret_" + c.short.split(".")[-1]) if c.result is not None else None
     env = dict(bound, old=old, result=result)
+    if result is None and c.result is None and c.result_fn is None:
+        import inspect
+        for cname, fn in c.ensures:
+            f = getattr(fn, "fn", fn)
+            if "result" in inspect.signature(f).parameters:
+                raise SymError("contract %s speaks about `result` but declares no result sort (returns)" % c.key)
     for cname, fn in c.ensures:
         ctx.assume(c.apply(fn, env))
     ctx.last_result = result
